@@ -14,16 +14,16 @@ P = {
              text='PROOF (full): for all well-formed rational flats the model of intersection — whose dispatcher is regenerated from calc/intersection.py on every run — returns a well-formed flat denoting exactly the common point set (None iff disjoint, touching gives a Point, no internal error). The model is tied to the code by the extracted dispatch table and by a seeded differential run over all 25 ordered type pairs in constructed collinear/coplanar/touching/nested positions.',
              ref='DESIGN.md §5 C01'),
  'C02': dict(tech='Lean 4 theorems (K0, K1, K3, K5: all ten flat × polygon/polyhedron pairs exact in both orders) + Lean judge of the hypotheses on every body + three-way correspondence incl. exact vertex-enumeration oracle',
-             text='PROOF (full under the stated hypotheses): all five flat × ConvexPolygon pairs (every Valid polygon; kernels K0, K1) and all five flat × ConvexPolyhedron pairs (kernels K3, K5; every polyhedron meeting ExactHyp: Valid faces, closed surface, vertices on the inner side of every face, no two neighbouring faces coplanar, edge list = face edges) are proved EXACT in both argument orders: the call returns without error an object denoting exactly f ∩ hull(vertices), None iff empty, a returned Segment proper. That the body the constructor stores meets ExactHyp is judged on every body of the run by the Lean procedure exactHypB (soundness proved). The hypothesis on coplanar neighbours cannot be dropped (counterexample proved in Lean, reproduced on the implementation; outside the property, whose faces are the maximal faces). Correspondence: implementation vs model vs independent exact vertex enumeration on constructed degenerate positions.',
+             text='PROOF (full under the stated hypotheses): all five flat × ConvexPolygon pairs (every Valid polygon; kernels K0, K1) and all five flat × ConvexPolyhedron pairs (kernels K3, K5; every polyhedron meeting ExactHyp: Valid faces, closed surface, vertices on the inner side of every face, no two neighbouring faces coplanar, edge list = face edges) are proved EXACT in both argument orders: the call returns without error an object denoting exactly f ∩ hull(vertices), None iff empty, a returned Segment proper. The constructor output meets ExactHyp for the faces of any Valid body without coplanar neighbours, in any order / start vertex / orientation (bridge theorem), and exactHypB (soundness proved) judges every body of the run. The hypothesis on coplanar neighbours cannot be dropped (counterexample proved in Lean, reproduced on the implementation; outside the property, whose faces are the maximal faces). Correspondence: implementation vs model vs independent exact vertex enumeration on constructed degenerate positions.',
              ref='DESIGN.md §5 C02'),
- 'C03': dict(tech='Lean 4 theorem (polygon×polygon with different carrier planes exact) + three-way correspondence against exact vertex enumeration',
-             text='PROOF (partial): SOUNDNESS is proved for every polygon/polyhedron pair, including the coplanar polygon case and polyhedron × polyhedron (every point of the result lies in both operands); polygon × polygon is proved EXACT in every relative position, coplanar overlaps / nesting / touching included (kernels K0, K1, K2, K6), never raising. Completeness of plane cuts and assembly (K3, K4) for polygon × polyhedron and polyhedron × polyhedron is not proved and is decided per run by comparing implementation, executable model and exact vertex enumeration (dimension and vertex set, hence measures) on 9 templates. Rational poses only.',
+ 'C03': dict(tech='Lean 4 theorems (polygon × polygon exact in every position, polygon × polyhedron exact, soundness of all body pairs) + three-way correspondence against exact vertex enumeration',
+             text='PROOF (partial): SOUNDNESS is proved for every polygon/polyhedron pair, including the coplanar polygon case and polyhedron × polyhedron (every point of the result lies in both operands); polygon × polygon is proved EXACT in every relative position, coplanar overlaps / nesting / touching included (kernels K0, K1, K2, K6), never raising; polygon × polyhedron is proved EXACT in both orders for every Valid polygon and every polyhedron meeting ExactHyp (K3 plane section composed with K0/K1/K2), never raising. Completeness of the assembly (K4) for polyhedron × polyhedron is not proved and is decided per run by comparing implementation, executable model and exact vertex enumeration (dimension and vertex set, hence measures) on 9 templates. Rational poses only.',
              ref='DESIGN.md §5 C03'),
  'C04': dict(tech='translator (isinstance chain + documentation table -> Lean) + decide over the finite tables + correspondence over all 49 pairs × 3 call forms',
-             text='PROOF (full for the dispatch logic): the 49-cell table, None guard and fall-through are extracted from the current source and Lean decides totality, symmetry (same handler, swapped arguments), foreign-type rejection, coverage of the documentation table, and that the table-driven dispatcher equals the reference dispatcher. That handlers never hit "Bug detected" and return documented types is proved for flats (C01) and decided per run for polygons/polyhedra by the correspondence (function form, swapped operands, method form, None).',
+             text='PROOF (full for the dispatch logic): the 49-cell table, None guard and fall-through are extracted from the current source and Lean decides totality, symmetry (same handler, swapped arguments), foreign-type rejection, coverage of the documentation table, and that the table-driven dispatcher equals the reference dispatcher. That the call never raises (no "Bug detected") is proved for every ordered type pair except polyhedron × polyhedron (flats: C01; polygons / polyhedra: kernels K0–K3, K6, for Valid polygons and polyhedra meeting ExactHyp), and whenever a call returns its result type is in the documented list (all 49 pairs, all operands). Polyhedron × polyhedron and the implementation side are decided per run by the correspondence (function form, swapped operands, method form, None).',
              ref='DESIGN.md §5 C04'),
  'C05': dict(tech='Lean 4 iff-theorems per container/candidate type + three-way correspondence against exact containment',
-             text='PROOF (full under the stated validity hypotheses): membership ⇔ containment for Point in Line/HalfLine/Segment/Plane/ConvexPolygon (hull, boundary included), Point and Segment in ConvexPolyhedron (kernel K5: face tests of a Valid closed convex polyhedron = convex hull of its vertices, both directions), Segment in Line/HalfLine/Segment/Plane/ConvexPolygon, HalfLine in Line/HalfLine/Plane, Line in Plane, ConvexPolygon in Plane; ConvexPolygon in ConvexPolyhedron one direction. That an implementation-built body is Valid is judged per run by the Lean decision procedure validB (proved sound). Correspondence: 18 (candidate, container) combinations, three-way against exact H-representation containment.',
+             text='PROOF (full under the stated validity hypotheses): membership ⇔ containment for Point in Line/HalfLine/Segment/Plane/ConvexPolygon (hull, boundary included), Point and Segment in ConvexPolyhedron (kernel K5: face tests of a Valid closed convex polyhedron = convex hull of its vertices, both directions), Segment in Line/HalfLine/Segment/Plane/ConvexPolygon, HalfLine in Line/HalfLine/Plane, Line in Plane, ConvexPolygon in Plane, ConvexPolygon in ConvexPolyhedron (both directions). That an implementation-built body is Valid is judged per run by the Lean decision procedure validB (proved sound). Correspondence: 18 (candidate, container) combinations, three-way against exact H-representation containment.',
              ref='DESIGN.md §5 C05'),
  'C06': dict(tech='Lean 4 theorems (fan area = shoelace; closed surface ⇒ reference-independent volume; pyramid term) + correspondence against exact rational measures',
              text='PROOF (full relative to the shoelace / surface-integral definitions): the fan-of-triangles area of a Valid polygon equals the shoelace value for any fan centre; vector areas of a closed surface cancel, so the pyramid-sum volume is reference independent; per-face h·A/3 is the cone term. Permutation/orientation invariance of the constructors and float accuracy (1e-9) are decided per run against exact rational cross-product/determinant values.',
@@ -44,19 +44,19 @@ P = {
              text='PROOF (full for the component formulas, all inputs): the terms computed by the CURRENT Vector/Point methods are regenerated on every run and proved equal to the textbook formulas by ring, with the three identities as corollaries and the promotion table decided. Numeric-type preservation and length/normalized/angle consistency are runtime facts decided by the correspondence over int/Fraction/Decimal/float/user type.',
              ref='DESIGN.md §5 C18'),
  'C07': dict(tech='Lean 4 theorems (move = fresh object, histories by induction, polygon validity/membership/measures under move) + history correspondence against fresh objects',
-             text='PROOF (partial only for non-membership queries of polyhedra): for Point, Line, Plane, Segment, HalfLine the moved receiver IS the freshly constructed object (cached carrier line rebuilt), denotes the translated set, returned = receiver, move back restores it, and after ANY list of moves it equals one move by the sum (induction). ConvexPolygon: vertices translated in order, the recomputed plane keeps validity, membership / edge lengths / area invariant, histories, and returned == receiver (kernel K6: re-sorting a counter-clockwise cycle is the identity). ConvexPolyhedron: the move of a Valid body succeeds, returned = receiver, the result is Valid and its membership test is the translated one. Decided per run: histories of 1-6 moves with deepcopy interleaved, receiver and returned object against a fresh object over membership, intersection (incl. probes through the old position and coplanar probes), distance, angle, measures, ==, hash.',
+             text='PROOF (partial only for non-membership queries of polyhedra): for Point, Line, Plane, Segment, HalfLine the moved receiver IS the freshly constructed object (cached carrier line rebuilt), denotes the translated set, returned = receiver, move back restores it, and after ANY list of moves it equals one move by the sum (induction). ConvexPolygon: vertices translated in order, the recomputed plane keeps validity, membership / edge lengths / area invariant, histories, and returned == receiver (kernel K6: re-sorting a counter-clockwise cycle is the identity). ConvexPolyhedron: the move of a Valid body succeeds, returned = receiver, the result is Valid, meets the hypotheses of the exactness theorems again, and its membership test is the translated one. Decided per run: histories of 1-6 moves with deepcopy interleaved, receiver and returned object against a fresh object over membership, intersection (incl. probes through the old position and coplanar probes), distance, angle, measures, ==, hash.',
              ref='DESIGN.md §5 C07'),
  'C08': dict(tech='Lean 4 iff-theorems (== ⇔ same set ⇔ same hash key) for the five flat types + extracted isinstance guards + correspondence over alternative representations',
-             text='PROOF (partial): for Line, Plane, Segment, HalfLine (and Point/Vector) == holds iff the objects denote the same set iff the exact hash keys of the CURRENT __hash__ agree (so a==b ⇒ hash equal, and different sets ⇒ unequal); reflexive, symmetric; isinstance guards of __eq__ extracted and decided. ConvexPolygon/ConvexPolyhedron: == is hash equality in the code; "same set ⇔ equal" is decided per run over shuffled/duplicated vertex and face orders and near-miss shapes.',
+             text='PROOF (full for the flat types; composites modulo the hash-sum idealisation): for Line, Plane, Segment, HalfLine (and Point/Vector) == holds iff the objects denote the same set iff the exact hash keys of the CURRENT __hash__ agree (so a==b ⇒ hash equal, and different sets ⇒ unequal); reflexive, symmetric; isinstance guards of __eq__ extracted and decided. ConvexPolygon/ConvexPolyhedron: == is equality of hash SUMS in the code; the model equality (same vertex set and plane / same vertex and face sets) is proved ⇔ same point set (extreme points; K5, K6), reflexive, symmetric, transitive, and equal for re-ordered / re-oriented constructions; that the hash sums agree exactly when the sets do is decided per run over shuffled/duplicated vertex and face orders and near-miss shapes against the Lean equality and the exact oracle.',
              ref='DESIGN.md §5 C08'),
- 'C12': dict(tech='Lean 4 corollaries of C01/C02 (associativity for 125 flat triples, self, subset, result-in-both, mixed chain) + correspondence over all 343 type triples',
-             text='PROOF (partial): result ⊆ a ∩ b is proved for ALL 49 type pairs (every vertex and every point of the result lies in both operands); for flats associativity (both nestings denote exactly a∩b∩c, None absorbing), intersection(a,a)=a and a⊆b ⇒ intersection=a are theorems about the table-driven dispatcher, plus the mixed chain (a∩b)∩P. Self/subset/associativity with polygon or polyhedron operands need completeness kernels and are decided per run on all 343 type triples against the exact triple intersection (vertex enumeration).',
+ 'C12': dict(tech='Lean 4 corollaries of exactness (C01, K0–K3, K6): associativity, self, subset, result = a ∩ b for all admissible operand triples without a direct polyhedron × polyhedron call + correspondence over all 343 type triples',
+             text='PROOF (partial): result ⊆ a ∩ b is proved for ALL 49 type pairs (every vertex and every point of the result lies in both operands); for flats associativity (both nestings denote exactly a∩b∩c, None absorbing), intersection(a,a)=a and a⊆b ⇒ intersection=a are theorems about the table-driven dispatcher, plus: for ALL admissible operands (well-formed flats, Valid polygons, polyhedra meeting ExactHyp) the result denotes exactly a ∩ b, intersection(a,a)=a, a⊆b ⇒ intersection(a,b)=intersection(b,a)=a, and associativity with both nestings denoting exactly a∩b∩c — for every type triple in which no two polyhedra are intersected with each other directly (kernels K0–K3, K6). Triples containing polyhedron × polyhedron need K4 and are decided per run on all 343 type triples against the exact triple intersection (vertex enumeration).',
              ref='DESIGN.md §5 C12'),
  'C09': dict(tech='Lean 4 theorems on the constructors (guarantees of a successful construction, translation equivariance) + Lean validity judge on every constructed object',
              text='PROOF (full relative to a Valid reference body): kernel K6 is proved — whatever the order and repetitions of the input, distinct coplanar points in strictly convex position are accepted and yield the Valid counter-clockwise cycle on exactly those points; -p is Valid about the reversed normal with the reversed cycle and -(-p) has p\'s cycle and normal direction; constructor commutes with translations. ConvexPolyhedron: given the faces of a Valid body in ANY order, with ANY start vertex and EITHER orientation, the constructor succeeds and stores a Valid body with every face outward, the same vertices and edges, Euler, centre = vertex mean strictly inside, and the same membership test (= hull of the vertices); a permuted face list gives the same centre, vertices, membership and volume. That a given face list is that of a Valid body is judged per constructed object by the Lean decision procedure (proved sound: validB ⇒ Valid ⇒ membership = hull). Correspondence: permuted / duplicated polygons, re-oriented shuffled polyhedra, -p, -(-p), fed-back sections, compared with the model constructor and the exact hull.',
              ref='DESIGN.md §5 C09'),
  'C13': dict(tech='Lean 4 theorems (48 signed permutations: dot/cross laws, membership and flat intersection equivariance, bijectivity) + metamorphic correspondence',
-             text='PROOF (partial only for intersection results of polygons/polyhedra): for all 48 signed permutations, translations and k>0: dot/cross laws (determinant factor), membership tests of every type incl. polygons and polyhedra commute, flat intersection is equivariant, angle/parallel/orthogonal and == are invariant, squared distance scales by k^2 (all documented pairs), lengths by k, polygon area by k^2 (Valid preserved under reflections with the pseudo-vector normal), polyhedron volume and the volume of any closed surface by k^3. Constructor commutation and intersection with polygon/polyhedron operands are decided per run metamorphically (49 type pairs under random symmetries/translations/scalings).',
+             text='PROOF (partial only for polyhedron × polyhedron results and constructor commutation): for all 48 signed permutations, translations and k>0: dot/cross laws (determinant factor), membership tests of every type incl. polygons and polyhedra commute, flat intersection is equivariant, angle/parallel/orthogonal and == are invariant, squared distance scales by k^2 (all documented pairs), lengths by k, polygon area by k^2 (Valid preserved under reflections with the pseudo-vector normal), polyhedron volume and the volume of any closed surface by k^3. intersection is equivariant for flats and Valid polygons (36 pairs) and with one polyhedron operand when the transformed body meets ExactHyp (from exactness). Constructor commutation and polyhedron × polyhedron are decided per run metamorphically (49 type pairs under random symmetries/translations/scalings).',
              ref='DESIGN.md §5 C13'),
  'C14': dict(tech='Lean 4: combinatorial skeletons (general n and decide +kernel over the whole finite range), frame-selection theorem, real-analysis theorems for vertices/steps/volumes + correspondence against closed forms',
              text='PROOF (partial): face lists exactly as coded with the constructor\'s flips: V/E/F, Euler, closedness and consistent orientation for every n ≥ 3 (Circle, Cylinder, Cone) and for the whole Sphere range 3..12 × 2..5 (kernel-evaluated table); the frame selection always finds a base vector not parallel to the normal (the raise is dead; D8 is the excluded case); over ℝ every vertex lies on the circle/cylinder/cone/sphere at equal angular and latitude steps, polygons convex, Cylinder and Cone volumes equal the closed forms; Parallelogram area and Parallelepiped volume |det| exactly. Not proved: closed-form areas of the round solids, Sphere volume/convexity. Decided per run: everything above on the implementation (counts, on-surface residuals, steps, rings, closed forms at 1e-9, arguments unmodified) over the 26 lattice axes, near-axis directions straddling SMALL_ANGLE, random directions.',
